@@ -188,18 +188,14 @@ impl ForwardedStreamSource {
     }
 
     async fn read_body(&mut self) -> io::Result<pipe::Data> {
-        let mut state = match std::mem::replace(&mut self.state, SourceState::Done) {
+        // The pipe drops this future when the idle timer of the other direction fires and
+        // calls `read` again afterwards: the state has to stay in place across the await
+        let state = match &mut self.state {
             SourceState::TransferringBody(x) => x,
             _ => unreachable!(),
         };
 
         let result = state.source.read().await?;
-
-        self.state = SourceState::TransferringBody(state);
-        let state = match &mut self.state {
-            SourceState::TransferringBody(x) => x,
-            _ => unreachable!(),
-        };
 
         match (result, &state.body_length) {
             (pipe::Data::Chunk(mut bytes), BodyLength::Determined(n)) if state.sent_bytes < *n => {
